@@ -50,8 +50,8 @@ pub struct Trace {
     /// options instead of null transforms.
     #[serde(default, skip_serializing_if = "Option::is_none")]
     pub wrap_opts: Option<WrapOpts>,
-    /// Run the operations of this trace on a thread with a 2 MiB stack (what `std::thread`
-    /// gives a spawned thread by default) instead of the simulator's usual 8 MiB.
+    /// Run the operations of this trace on a thread with a small stack (512 KiB, see
+    /// `exec::SMALL_STACK`) instead of the simulator's usual 8 MiB.
     #[serde(default, skip_serializing_if = "std::ops::Not::not")]
     pub small_stack: bool,
     #[serde(default)]
